@@ -5,6 +5,7 @@ import json, os, re, sys
 
 PROPS = ["C03", "C04", "C05", "C06", "C10", "C11", "C13", "C14", "C15"]
 rows = {}
+skipped = set()
 for path in sys.argv[1:]:
     cur = None
     keys = {}
@@ -17,6 +18,10 @@ for path in sys.argv[1:]:
             keys = {}
             continue
         if cur is None:
+            continue
+        if line.startswith("SKIPPED"):
+            rows[cur] = {p: ["(not run: " + line.split(" ", 1)[1] + ")"] if p == cur.split("_")[0] else [] for p in PROPS}
+            skipped.add(cur)
             continue
         m = re.match(r"^\s+key=(C\d\d)/(\S+) ::", line)
         if m:
@@ -35,7 +40,7 @@ def meta(name):
         return {}
 
 print("# Seeded changes: which check reports which change\n")
-print("Each directory `/verif/seeded/<ID>_m<k>/` holds a property-breaking change written by a sub-agent that saw only the property text and a scratch worktree of /repo: `patch.diff` (applies to /repo HEAD), the demonstration (`*.rs`, `run_demo.sh`), the agent's `README.md`, `confirm.log` (our own confirmation: demo passes without the change, fails with it, the whole existing suite passes with it) and `meta.json` (what it breaks, what it needs in order to manifest, what we ran). `_m1`/`_m2` are the first round, `_m3` the second round (agents asked for other mechanisms than the first round's).\n")
+print("Each directory `/verif/seeded/<ID>_m<k>/` holds a property-breaking change written by a sub-agent that saw only the property text and a scratch worktree of /repo: `patch.diff` (applies to /repo HEAD), the demonstration (`*.rs`, `run_demo.sh`), the agent's `README.md`, `confirm.log` (our own confirmation: demo passes without the change, fails with it, the whole existing suite passes with it) and `meta.json` (what it breaks, what it needs in order to manifest, what we ran). `_m1`/`_m2` are the first round, `_m3` the second and `_m4` the third (agents were told which mechanisms had been used already).\n")
 print("Matrix below: every change applied in a scratch worktree of /repo HEAD (`tools/scratch_check.sh`, driven by `tools/matrix.sh`), every check's quick tier run against it (VERIF_SEED=1). A cell lists the classification keys reported (`-` = the check stayed green, `?` = no run recorded). The target column is marked with `*`. KNOWN-FINDING keys are omitted.\n")
 print("| change | " + " | ".join(PROPS) + " |")
 print("|---|" + "---|" * len(PROPS))
@@ -48,12 +53,14 @@ for name in sorted(rows):
         c = "?" if k is None else ("-" if not k else ", ".join(k))
         if p == tgt:
             c = f"**{c}** *"
-            if not k:
+            if not k and name not in skipped:
                 missed.append(name)
         cells.append(c)
     print(f"| {name} | " + " | ".join(cells) + " |")
 print()
-n = len(rows)
+n = len(rows) - len(skipped)
+if skipped:
+    print(f"Not run because a later repository fix made the change harmless (see meta.json): {', '.join(sorted(skipped))}.\n")
 if missed:
     print(f"{n - len(missed)} of {n} changes are reported by the quick tier of the check they target; not reported: {', '.join(missed)}.")
 else:
